@@ -47,6 +47,32 @@ Fixpoint parse_matcher (fuel : nat) (l : list bytes) : option (matcher * list by
     end
   end.
 
+(* Matcher specifications the model answers for: and/or nesting within the parser's fuel, Hosts lists whose every
+   domain is accepted (NewHosts panics otherwise: a constructor failure, not a behaviour of the group) and ASCII *)
+Fixpoint hosts_lists_ok (fuel : nat) (l : list bytes) : bool :=
+  match fuel with
+  | O => true
+  | S f =>
+    match l with
+    | [] => true
+    | k :: rest =>
+      if beqb k (bs "hosts") then
+        let '(ds, rest') := take_list rest in
+        forallb (fun d => forallb (fun c => c <? 128) d) ds &&
+        (fix adds (t : tree) (ds : list bytes) : bool :=
+           match ds with
+           | [] => true
+           | d :: ds' => match hosts_add t d with Ok t' => adds t' ds' | _ => false end
+           end) hosts_new ds &&
+        hosts_lists_ok f rest'
+      else hosts_lists_ok f rest
+    end
+  end.
+
+Definition spec_supported (l : list bytes) : bool :=
+  hosts_lists_ok (S (length l)) l &&
+  Nat.leb (length (filter (fun k => beqb k (bs "and") || beqb k (bs "or")) l)) 6.
+
 (* routers created by Group.New answer 404 with the group's (unwrapped) not-found handler *)
 Definition group_router (name : bytes) (trace : bool) : router :=
   let r := new_router name [] trace [] in
@@ -62,11 +88,12 @@ Record sgr := mk_sgr {
   (* specification side *)
   gspec : list (bytes * (list bytes));       (* router name -> matcher specification (fields), in dispatch order *)
   guses : list bytes;
+  gunsup : bool;                             (* the case has left the modelled fragment: nothing more is compared *)
 }.
-#[export] Instance eta_sgr : Settable _ := settable! mk_sgr <grp; solo; gpid; gspec; guses>.
+#[export] Instance eta_sgr : Settable _ := settable! mk_sgr <grp; solo; gpid; gspec; guses; gunsup>.
 
 Definition init_gr (pid : bytes) (h : list line) : sgr :=
-  {| grp := g_new_group false; solo := []; gpid := pid; gspec := []; guses := [] |}.
+  {| grp := g_new_group false; solo := []; gpid := pid; gspec := []; guses := []; gunsup := false |}.
 
 Fixpoint parse_raises (l : list bytes) : raises :=
   match l with a :: b :: c :: l' => (a, b, c) :: parse_raises l' | _ => [] end.
@@ -120,7 +147,14 @@ Definition mreq_of (o : line) (i : nat) : mreq :=
 Definition step_gr (s : sgr) (o : line) : sgr * list bytes :=
   let op := arg 0 o in
   let a := args o in
+  if gunsup s then (s, [bs "unsup"]) else
   if beqb op (bs "gcfg") then (s <| grp := g_new_group (argb 1 o) |>, [bs "ok"])
+  else if (beqb op (bs "gnew") || beqb op (bs "rnew")) && beqb (arg 1 o) [] then
+    (s, [bs "panic"; bs "other"])                  (* tree.New refuses an empty router name *)
+  else if (beqb op (bs "gnew") && negb (spec_supported (skipn 4 a))) || (beqb op (bs "gadd") && negb (spec_supported (skipn 2 a))) then
+    (s <| gunsup := true |>, [bs "unsup"])
+  else if beqb op (bs "greq") && negb (forallb (fun c => c <? 128) (arg 2 o)) then
+    (s, [bs "unsup"])                              (* strings.ToLower of the Host is Unicode-aware *)
   else if beqb op (bs "gnew") then
     (* gnew name trace recover(-|0|1) spec… *)
     match parse_matcher 8 (skipn 4 a) with
